@@ -82,7 +82,7 @@ func verifyOne(p *Program, sp *Specs, fs *FuncSpec, want, outDir string, workers
 		for _, o := range g.obs {
 			if o.Auto {
 				autos = append(autos, o)
-			} else if want == "C06" && !strings.HasPrefix(o.Kind, "panic") && !o.Cover && !(o.Kind == "requires" && len(o.Props) == 0) {
+			} else if want == "C06" && !strings.HasPrefix(o.Kind, "panic") && !o.Cover && !(o.Kind == "requires" && len(o.Props) == 0) && !hasProp(o.Props, "C06") {
 				// the panic-freedom view: run-time checks and the untagged preconditions at call
 				// sites (a callee's panic freedom rests on them: an unchecked type assertion
 				// behind a `same kind` precondition is only as safe as its callers). The other
@@ -263,3 +263,12 @@ func retrySlow(g *Gen, obs []*Oblig, res []*Result, dir string, workers, quick, 
 // knownFindingNames: obligations listed in known_findings.json (they fail by definition; asking
 // again with more time would only slow the check down).
 var knownFindingNames = map[string]bool{}
+
+func hasProp(ps []string, p string) bool {
+	for _, x := range ps {
+		if x == p {
+			return true
+		}
+	}
+	return false
+}
